@@ -1106,7 +1106,12 @@ def x_dc_replace(c):
             return
         c.ret(new)
         return
-    return unknown_callable(c, "dataclasses.replace of a value that is not a tracked record")
+    # a record the analysis does not track (a parameter of a method analysed on its own): some
+    # new object of the same class
+    c.rz("TypeError", "replace() of a value that is not a dataclass instance or with an unknown field", [])
+    ts = c.types(rec) if rec is not None else None
+    t = Fresh("replaced")
+    c.ret(t, *([("type", t, ts)] if ts else []))
 
 
 @ext("itertools.starmap", "itertools.filterfalse")
